@@ -229,6 +229,12 @@ func (a *actor) runActorCommandWithConsumer(
 	}
 
 	<-readerDone
+	if interrupt {
+		// The leader is gone, and with it the drain loop above (its
+		// pipe is closed): members of the command's process group that
+		// ignored the SIGHUP must not outlive the play either.
+		syscall.Kill(-cmd.Process.Pid, syscall.SIGKILL)
+	}
 	if log.V(1) {
 		log.Infof(ctx, "%d errors encountered", len(coll.errs))
 	}
